@@ -516,15 +516,17 @@ def check_C18(ctx):
     r = sh(["gcc", "-shared", "-fPIC", "-w", f"-I{REPO}/include", os.path.join(ldir, "big.c"), "-o", os.path.join(ldir, "libbig_tests.so"), f"-L{rimpl['dir']}", "-lcgreen"])
     if r.returncode != 0:
         raise BuildError("test library: " + r.stdout[-1500:])
-    nrun = rshown = 0
+    nrun = rshown = nhung = 0
     for n in (cap - 1, cap, cap + 1, 5 * cap):
         for args, label in (([], "all tests"), (["big_makes_many_checks"], "the one test selected by name"), (["big*"], "the one test selected by a pattern"), (["-q", "big_makes_many_checks"], "the one test selected by name, quiet")):
             e = dict(os.environ); e["C18_N"] = str(n); e["LD_LIBRARY_PATH"] = rimpl["dir"]; e.pop("CGREEN_NO_FORK", None)
+            if nhung >= 2: continue      # (runs that do not end have been reported; no need to wait for more of them)
             try:
-                rr = subprocess.run([rimpl["runner"]] + [a_ for a_ in args if a_.startswith("-")] + ["libbig_tests.so"] + [a_ for a_ in args if not a_.startswith("-")], cwd=ldir, stdout=subprocess.PIPE, stderr=subprocess.PIPE, env=e, timeout=120)
+                rr = subprocess.run([rimpl["runner"]] + [a_ for a_ in args if a_.startswith("-")] + ["libbig_tests.so"] + [a_ for a_ in args if not a_.startswith("-")], cwd=ldir, stdout=subprocess.PIPE, stderr=subprocess.PIPE, env=e, timeout=60)
                 rc, outp = rr.returncode, rr.stdout.decode("latin-1")
             except subprocess.TimeoutExpired:
                 rc, outp = "timeout", ""
+                nhung += 1
             nrun += 1
             want_passes = n + (0 if args and not args[-1].startswith("-") else 1)
             mt = re.findall(r"(\d+) pass", re.sub(r"\x1b\[[0-9;]*m", "", outp))
@@ -2302,6 +2304,13 @@ def check_C20(ctx):
         for kind in ("X", "Y"):
             scens.append(Scen(S("top", items=[T("a", body=["P"]), T("quotes", body=["P", kind + txt.encode().hex(), "P"]), T("b", body=["F"])])))
             labels.append(f"a failure message of {L} characters given as {'an argument of a format' if kind == 'X' else 'a finished format'}")
+    # the text reporter's summary lines at their longest: every kind of count present, several digits each, colours on (as cgreen-runner
+    # writes them on a terminal), under a short and under a long suite name
+    colour_scens, colour_labels = [], []
+    for nm in ("s", "n" * 3000):
+        tests = [T("many", body=["P"] * 1234 + ["F"] * 12), T("sk1", body=["S"]), T("sk2", body=["P", "S"]), T("x1", body=["K6"]), T("x2", body=["P", "K11"])]
+        colour_scens.append(Scen(S(nm, items=[S("inner", items=[t.copy() for t in tests]), T("own", body=["P", "F"])])))
+        colour_labels.append(f"summary lines with passes, skipped, failures and exceptions of several digits, colours on, suite name of {len(nm)} characters")
     jobs = [(s.text(), r) for s in scens for r in REPORTERS_ALL]
     # deeper than a per-suite file name allows: the XML reporters through their printer hooks, the others as they are
     DEEP_REPS = ["text", "cute", "cdash", "xmlp", "libxmlp"]
@@ -2316,6 +2325,17 @@ def check_C20(ctx):
     for L1, L2 in ((2040, 2060), (4090, 10), (4095, 4095), (3000, 3000)):
         deep_scens.append(Scen(S("p" * L1, items=[S("q" * L2, items=[T("leaf", body=["P", "F"])])]))); deep_labels.append(f"suite name of {L2} characters inside one of {L1}")
     obs = bench.run_many(jobs, env=asan_env(), timeout=120)
+    # (judged apart: crash / sanitizer report, and the totals)
+    sig_env2 = asan_env(); sig_env2["ASAN_OPTIONS"] += ":handle_segv=0:handle_abort=0"
+    cobs2 = bench.run_many([(s.text(), "textc") for s in colour_scens], env=sig_env2, timeout=120)
+    for s_, lab_, o_ in zip(colour_scens, colour_labels, cobs2):
+        bad_ = o_.timeout or "ERROR: AddressSanitizer" in o_.stderr or "runtime error" in o_.stderr or (o_.rc is not None and (o_.rc < 0 or o_.rc in (98, 99)))
+        tot_ = parse_counts(re.sub(r"\x1b\[[0-9;]*m", "", o_.stdout).split("Completed")[-1]) if "Completed" in o_.stdout else None
+        if bad_ or tot_ != (1237, 13, 2, 2):
+            ctx.violation(f"[C20] {lab_}: " + (("undefined behaviour / crash in cgreen itself (exit %s): " % o_.rc) + " ".join(l.strip() for l in o_.stderr.split("\n") if "ERROR" in l or "SUMMARY" in l or "runtime error" in l)[:240] if bad_
+                                             else f"the totals line says {tot_}, what happened is (1237, 13, 2, 2)"),
+                          "# reporter: textc (the text reporter with colours on)   (sanitizer build: harness/scenario_run <file> textc <outdir>)\n" + s_.text()[:3000], found_input=True, facts={"where": "text_reporter", "what": "summary line"})
+    ctx.coverage["coloured_summary_runs"] = len(cobs2)
     djobs = [(s.text(), r) for s in deep_scens for r in DEEP_REPS]
     obs += bench.run_many(djobs, env=asan_env(), timeout=120)
     jobs += djobs
@@ -2538,6 +2558,29 @@ def gen_bind_tu(rng, nfuncs):
                     cons = f"is_equal_to_double({v}.5)" if d else f"is_equal_to({v})"
                     calls.append(f'  npass = nfail = 0; expect(fn_{k}, {lead}, when({a}, {cons})); fn_{k}({callargs}); clear_mocks(); printf("%d %d -\\n", npass, nfail);')
                     expected.append((f"fn_{k} arity {n}: when({a}, ...) written after {lead}, the argument {'matches' if right else 'does not match'}", "1 0 -" if right else "0 1 -", snippet + f"\n/* expect(fn_{k}, {lead}, when({a}, {cons})); fn_{k}({callargs}); */"))
+    # an absent name among several clauses, not the last of them: reported all the same (a later clause naming a real parameter does not
+    # make up for it), with other clauses in between or not
+    xs = "static intptr_t fn_v(intptr_t fd, intptr_t buffer, intptr_t size) { return mock(fd, buffer, size); }"
+    out.append(xs)
+    for cl, want, desc in (("when(descriptor, is_equal_to(3)), when(size, is_equal_to(5))", "1", "an absent name before a clause naming a real parameter"),
+                           ("when(descriptor, is_equal_to(3)), times(1), when(size, is_equal_to(5))", "1", "an absent name, then times(1), then a clause naming a real parameter"),
+                           ("when(fd, is_equal_to(3)), when(descriptor, is_equal_to(3)), when(size, is_equal_to(5))", "1", "an absent name between two clauses naming real parameters"),
+                           ("will_capture_parameter(descriptor, got), when(size, is_equal_to(5))", "1", "a capture clause with an absent name before a clause naming a real parameter"),
+                           ("when(fd, is_equal_to(3)), when(size, is_equal_to(5))", "0", "two clauses naming real parameters")):
+        calls.append(f'  {{ intptr_t got = -1; npass = nfail = 0; expect(fn_v, {cl}); fn_v(3, 4, 5); clear_mocks(); printf("%d -\\n", nfail > 0); }}')
+        expected.append((f"fn_v: {desc}", f"{want} -", xs + f"\n/* expect(fn_v, {cl}); fn_v(3, 4, 5); */"))
+    # a mock that passes expressions (`*length`, `m->size`, `&status`): a clause naming an identifier that only occurs inside such an
+    # expression names no parameter of the mock
+    es = ("struct c16_m { intptr_t id; intptr_t size; };\n"
+          "static intptr_t fn_e(intptr_t buffer, intptr_t *length, struct c16_m *m) { return mock(buffer, *length, m->size); }")
+    out.append(es)
+    for cl, want, desc in (("when(length, is_equal_to(9))", "1", "when() on an identifier that occurs only inside the argument `*length`"),
+                           ("when(size, is_equal_to(7))", "1", "when() on an identifier that occurs only inside the argument `m->size`"),
+                           ("when(m, is_equal_to(7))", "1", "when() on an identifier that occurs only inside the argument `m->size`"),
+                           ("will_capture_parameter(length, got)", "1", "a capture clause on an identifier that occurs only inside the argument `*length`"),
+                           ("when(buffer, is_equal_to(1))", "0", "when() on the plain argument next to them")):
+        calls.append(f'  {{ intptr_t got = -1, len = 9; struct c16_m mm = {{ 6, 7 }}; npass = nfail = 0; expect(fn_e, {cl}); fn_e(1, &len, &mm); clear_mocks(); printf("%d %s\\n", nfail > 0, got == -1 ? "-" : "captured"); }}')
+        expected.append((f"fn_e: {desc}", f"{want} -", es + f"\n/* expect(fn_e, {cl}); fn_e(1, &len, &mm); */"))
     # parameter names that are also macros where the expectations are written (a constant or a renaming defined after the
     # mock function): a clause names the parameter as it is written, as mock(...) does
     msnip = "static intptr_t fn_m(intptr_t length_m, intptr_t source_m, intptr_t target_m) { return mock(length_m, source_m, target_m); }\n#define length_m 512\n#define source_m target_m"
@@ -3210,6 +3253,7 @@ def check_C09(ctx):
 def check_C14(ctx):
     lean_check(ctx)
     phase_obligations(ctx, ["timer_covers_the_test"])
+    traversal_obligations(ctx, ["every_test_skeleton"])      # (a suite's completion notice is sent before its last read, so none is left for a stopped test)
     rng = random.Random(ctx.seed * 1000 + 14)
     bench = Bench(ctx)
     scens, envs, labels = [], [], []
@@ -3228,6 +3272,15 @@ def check_C14(ctx):
                     scens.append(Scen(root, mode=mode)); envs.append({"CGREEN_PER_TEST_TIMEOUT": "1"} if how == "env" else {}); labels.append(f"{mode}, position {pos}, {len(pre)} results delivered, limit by {how}")
                     if (pos + len(pre)) % 2 == 0:
                         scens.append(Scen(root, mode=mode)); envs.append(dict(envs[-1], CGREEN_CHILD_EXIT_WITH__EXIT="1")); labels.append(labels[-1] + ", CGREEN_CHILD_EXIT_WITH__EXIT set")
+    # the overrunning test is the first one to end without a completion notice after one or two nested suites have finished, everything
+    # else green (nothing a finished suite leaves in the channel may stand in for the notice the stopped test never sent)
+    for how, env in (("env", {"CGREEN_PER_TEST_TIMEOUT": "1"}), ("die_in", {})):
+        act = "Z" if how == "env" else "ZD"
+        for shape in (0, 1, 2):
+            if shape == 0: root = S("top", items=[S("first", items=[T("a", body=["P"])]), T("slow", body=[act])])
+            elif shape == 1: root = S("top", items=[S("first", items=[T("a", body=["P"])]), S("second", items=[T("slow", body=["P", act]), T("b", body=["P"])])])
+            else: root = S("top", items=[S("outer", items=[S("deep", items=[T("a", body=["P"])]), T("c", body=["P"])]), T("slow", body=[act]), T("b", body=["P"])])
+            scens.append(Scen(root, mode="fork")); envs.append(env); labels.append(f"fork, the overrunning test comes after finished sub-suites (shape {shape}), nothing else fails, limit by {how}")
     # an earlier test (or the code it tests) leaves SIGALRM ignored: every test still gets a working limit of its own
     for mode in ("fork", "inproc", "single:slow"):
         for how, env in (("env", {"CGREEN_PER_TEST_TIMEOUT": "1"}), ("die_in", {})):
